@@ -107,6 +107,11 @@ void MainSolver::insertFormula(PTRef fla) {
     if (logic.getSortRef(fla) != logic.getSort_bool()) {
         throw ApiException("Top-level assertion sort must be Bool, got " + logic.sortToString(logic.getSortRef(fla)));
     }
+    // Without incremental mode the SAT solver keeps variable elimination switched on after a check:
+    // a formula added now could mention a variable whose clauses have already been resolved away
+    if (not config.isIncremental() and check_called > 0) {
+        throw ApiException("Cannot add an assertion after check-sat: the solver is not in incremental mode");
+    }
     // TODO: Move this to preprocessing of the formulas
     fla = IteHandler(logic, getPartitionManager().getNofPartitions()).rewrite(fla);
 
